@@ -15,7 +15,7 @@ type c09 struct{ base }
 func init() {
 	runner.Register(&c09{base{
 		id: "C09", level: "fault_enumeration",
-		rule: "seeded search over written files (none/zstd/lz4/custom/unchunked, CRCs on/off); per file the crash fault is enumerated exhaustively: truncation at EVERY byte 0..len-1, each read through the lexer without and with chunk CRC validation (attachment callback draining) and through the non-indexed iterator, under a drawn benign delivery policy. oracle: records returned are an element-wise prefix of the same reader's result on the uncut file (a cut attachment may surface with fewer data bytes), the read ends with EOF or an error, no panic, and every message of every chunk / top-level record that lies completely before the cut is returned. non-trivial file: >=2 record kinds and >=1 message; distinct by (config class, op-shape class, reader mode, FileMap region of the cut)",
+		rule: "seeded search over written files (none/zstd/lz4/custom/unchunked, CRCs on/off); per file the crash fault is enumerated exhaustively: truncation at EVERY byte 0..len-1, each read through the lexer without and with chunk CRC validation (attachment callback draining), through the lexer on a seekable source without callback (attachment bodies skipped with Seek) and through the non-indexed iterator, under a drawn benign delivery policy. oracle: records returned are an element-wise prefix of the same reader's result on the uncut file (a cut attachment may surface with fewer data bytes), the read ends with EOF or an error, no panic, and every message of every chunk / top-level record that lies completely before the cut is returned. non-trivial file: >=2 record kinds and >=1 message; distinct by (config class, op-shape class, reader mode, FileMap region of the cut)",
 		assumptions: []string{
 			"the sink is append-only (checked by C05), so what survives a crash of the recorder is a byte prefix",
 			"completeness bound uses refmcap's record boundaries",
@@ -40,7 +40,7 @@ func (p *c09) Draw(t *rapid.T, tier string) *runner.Scenario {
 	return &runner.Scenario{Cfg: &cfg, WL: &wl, Delivery: &del}
 }
 
-var c09Modes = []readerMode{"lexer", "lexer_crc", "scan"}
+var c09Modes = []readerMode{"lexer", "lexer_crc", "scan", "lexer_seek"}
 
 // completeBefore returns, for a cut at L, how many messages lie in chunks or
 // top-level records that end at or before L.
@@ -120,7 +120,7 @@ func (p *c09) Check(sc *runner.Scenario, st *runner.Stats, pin string) *runner.V
 	}
 	modes := c09Modes
 	if sc.Cfg.SkipMagic || (sc.Cfg.Custom != "" && sc.Cfg.Chunked) {
-		modes = []readerMode{"lexer", "lexer_crc"}
+		modes = []readerMode{"lexer", "lexer_crc", "lexer_seek"}
 	}
 	fulls := map[readerMode]*seqResult{}
 	for _, m := range modes {
